@@ -738,3 +738,67 @@ Lemma redir_location_partial rport h p uri : plain h -> plain p ->
   redir_location rport h uri = hex_escape_non_ascii (bs "https://" ++ h ++ port_part rport ++ uri) /\
   redir_location rport (h ++ COLON :: p) uri = hex_escape_non_ascii (bs "https://" ++ h ++ port_part rport ++ uri).
 Proof. intros. split; [apply redir_location_plain|apply redir_location_with_port]; assumption. Qed.
+
+(* ------------------------------------------------------------------ at most one redirect site per host *)
+Lemma other_has_nth l : forall o k i x h p,
+  nth_error l k = Some x -> (o + k)%nat <> i -> host x = h -> port x = p -> other_has l o i h p = true.
+Proof.
+  induction l as [|y l IH]; intros o k i x h p Hn Hne Hh Hp; [destruct k; discriminate|].
+  cbn [other_has]. destruct k as [|k]; simpl in Hn.
+  - injection Hn as ->. rewrite Nat.add_0_r in Hne. apply Nat.eqb_neq in Hne. rewrite Hne.
+    rewrite Hh, Hp, !beq_refl. reflexivity.
+  - rewrite (IH (S o) k i x h p Hn); [apply orb_true_r| lia | exact Hh | exact Hp].
+Qed.
+
+Lemma in_skipn_nth {A} (l : list A) m x : In x (skipn m l) -> exists k, (m <= k)%nat /\ nth_error l k = Some x.
+Proof.
+  revert l. induction m as [|m IH]; intros l H.
+  - simpl in H. apply In_nth_error in H as (k & Hk). exists k. split; [lia|exact Hk].
+  - destruct l as [|y l]; [destruct H|]. simpl in H. destruct (IH l H) as (k & Hk & Hn).
+    exists (S k). split; [lia|exact Hn].
+Qed.
+
+Lemma skipn_app_le {A} (a b : list A) m : (m <= length a)%nat -> skipn m (a ++ b) = skipn m a ++ b.
+Proof.
+  revert a. induction m as [|m IH]; intros a H; [reflexivity|].
+  destruct a as [|y a]; [simpl in H; lia|]. simpl. apply IH. simpl in H. lia.
+Qed.
+
+Lemma mpr_unique n : forall i all, (i + n <= length all)%nat ->
+  exists extra, mpr n i all = all ++ extra /\ NoDup (map host extra) /\
+    forall r x, In r extra -> In x (skipn (i + n) all) -> port x = P80 -> host x <> host r.
+Proof.
+  induction n as [|n IH]; intros i all Hlen; simpl.
+  - exists []. rewrite app_nil_r. split; [reflexivity|]. split; [constructor|]. intros r x [].
+  - destruct (nth_error all i) as [c|] eqn:Ec.
+    2:{ apply nth_error_None in Ec. lia. }
+    destruct (wants_redirect all i c) eqn:Ew.
+    + destruct (IH (S i) (all ++ [redir_site c])) as (extra & He & Hnd & Hx).
+      { rewrite app_length. simpl. lia. }
+      assert (Hsk : skipn (S i + n) (all ++ [redir_site c]) = skipn (i + S n) all ++ [redir_site c]).
+      { replace (S i + n)%nat with (i + S n)%nat by lia. apply skipn_app_le. exact Hlen. }
+      exists (redir_site c :: extra). split; [rewrite He, <- app_assoc; reflexivity|]. split.
+      * simpl. constructor; [|exact Hnd]. intros Hin. apply in_map_iff in Hin as (r & Hr & Hin).
+        apply (Hx r (redir_site c) Hin); [rewrite Hsk; apply in_or_app; right; left; reflexivity|reflexivity|].
+        simpl. symmetry. exact Hr.
+      * intros r x [<-|Hr] Hxin Hp.
+        -- (* a later :80 site of the same host would have blocked the redirect *)
+           simpl. intros Hh.
+           apply wants_redirect_iff in Ew. destruct Ew as (_ & _ & H80 & _).
+           unfold host_has_other_port in H80. rewrite Ec in H80.
+           apply in_skipn_nth in Hxin as (k & Hk & Hn).
+           rewrite (other_has_nth all 0 k i x (host c) P80 Hn) in H80; [discriminate|simpl; lia|exact Hh|exact Hp].
+        -- apply (Hx r x Hr); [|exact Hp]. rewrite Hsk. apply in_or_app. left. exact Hxin.
+    + destruct (IH (S i) all) as (extra & He & Hnd & Hx); [lia|].
+      exists extra. split; [exact He|]. split; [exact Hnd|].
+      intros r x Hr Hxin Hp. apply (Hx r x Hr); [|exact Hp].
+      replace (S i + n)%nat with (i + S n)%nat by lia. exact Hxin.
+Qed.
+
+Lemma redirects_unique all :
+  exists extra, make_plaintext_redirects all = all ++ extra /\ NoDup (map host extra).
+Proof.
+  unfold make_plaintext_redirects.
+  destruct (mpr_unique (length all) 0 all) as (extra & He & Hnd & _); [simpl; lia|].
+  exists extra. auto.
+Qed.
